@@ -143,6 +143,12 @@ fn fuzz_target_of(id: &str) -> Option<(&'static str, Option<u8>)> {
         "C10" => ("hist", Some(4)),
         "C13" => ("hist", Some(5)),
         "C15" => ("hist", Some(6)),
+        "C05" => ("hist", Some(7)),
+        "C12" => ("hist", Some(8)),
+        "C14" => ("hist", Some(9)),
+        "C16" => ("hist", Some(10)),
+        "C17" => ("hist", Some(11)),
+        "C11" => ("hist", Some(12)),
         _ => return None,
     })
 }
